@@ -14,8 +14,10 @@ import (
 )
 
 type CaseBytes struct {
-	Type string   `json:"type"`
-	W    HexBytes `json:"w"`
+	Type  string   `json:"type"`
+	W     HexBytes `json:"w"`
+	Spare int      `json:"spare,omitempty"` // spare capacity of the input buffer behind the data (C09/C10)
+	Pre   []PreOp  `json:"pre,omitempty"`   // prior calls in the same process
 }
 
 // computedSpans: byte ranges of self-computed fields in the rendering of v (any depth).
@@ -31,6 +33,7 @@ func computedSpans(v *Value) (*Rendered, []Span) {
 }
 
 func oracleC08(c *CaseBytes) *Failure {
+	defer runPrelude(c.Pre)()
 	got, rest, err, pan := LibDecode(c.Type, c.W)
 	sig := "C08/" + c.Type
 	if pan != nil {
@@ -110,12 +113,16 @@ func TestC08(t *testing.T) {
 		tn := tn
 		t.Run(tn, func(t *testing.T) {
 			CheckProp(t, "C08", "c08", tn, func(rt *rapid.T) *CaseBytes {
+				pre, _ := genPrelude(rt, tn, false)
 				w, ft, stale, mutated := wireString(rt, tn)
-				c := &CaseBytes{Type: tn, W: w}
+				c := &CaseBytes{Type: tn, W: w, Pre: pre}
 				// accepted? (classification only; the oracle decides again on its own)
 				_, _, err, pan := LibDecode(tn, w)
 				accepted := err == nil && pan == nil
 				cls := []string{}
+				if len(pre) > 0 {
+					cls = append(cls, "after-prior-calls")
+				}
 				if accepted {
 					cls = append(cls, "accepted")
 				} else {
@@ -315,10 +322,36 @@ func scramble(rv reflect.Value, depth int) {
 
 func oracleC16(c *CaseC16) *Failure {
 	sig := "C16/" + c.Type
-	enc, _, err, pan := LibEncode(c.V)
-	if err != nil || pan != nil {
+	// encode side first: the very first library call on this value writes into a buffer the harness owns
+	obj2 := ToStruct(c.V)
+	own := make([]byte, 0, 256)
+	out := bytes.NewBuffer(own)
+	if e, p, _ := safely(func() error { return EncodeAny(obj2, out) }); e != nil || p != nil {
 		return nil
 	}
+	written := append([]byte{}, out.Bytes()...)
+	scramble(reflect.ValueOf(obj2), 0)
+	var elsewhere bytes.Buffer
+	_, _, _ = safely(func() error { return EncodeAny(ToStruct(c.Other), &elsewhere) })
+	_, _, _ = safely(func() error { return EncodeAny(obj2, &elsewhere) })
+	if !bytes.Equal(out.Bytes(), written) {
+		return failf(sig+"/encode-side", "bytes already written changed when the message was modified afterwards (first difference at byte %d)", firstDiff(out.Bytes(), written))
+	}
+	// the buffer is reused for something else: a later encode of an equal message must not depend on it
+	raw := out.Bytes()[:cap(out.Bytes())]
+	for i := range raw {
+		raw[i] = 0x5A ^ byte(i)
+	}
+	out.Reset()
+	out.WriteString("the buffer now holds something else entirely ..........")
+	again, _, err, pan := LibEncode(c.V)
+	if err != nil || pan != nil {
+		return failf(sig+"/encode-side-retained", "a second encode of an equal message failed after the first output buffer was reused: err=%v panic=%v", err, pan)
+	}
+	if !bytes.Equal(again, written) {
+		return failf(sig+"/encode-side-retained", "after the first output buffer was overwritten and reused, encoding an equal message gives different bytes (first difference at byte %d): the library kept a reference into the caller's buffer", firstDiff(again, written))
+	}
+	enc := written
 	other, _, _, _ := LibEncode(c.Other)
 	// decode side: the harness owns the backing array
 	backing := make([]byte, len(enc), len(enc)+len(other)+64)
@@ -349,20 +382,6 @@ func oracleC16(c *CaseC16) *Failure {
 	}
 	if d := Diff(snap, after); d != "" {
 		return failf(sig+"/decode-side", "decoded message changed when its source buffer was overwritten and reused: %s", d)
-	}
-	// encode side
-	obj2 := ToStruct(c.V)
-	out := &bytes.Buffer{}
-	if e, p, _ := safely(func() error { return EncodeAny(obj2, out) }); e != nil || p != nil {
-		return nil
-	}
-	written := append([]byte{}, out.Bytes()...)
-	scramble(reflect.ValueOf(obj2), 0)
-	var elsewhere bytes.Buffer
-	_, _, _ = safely(func() error { return EncodeAny(ToStruct(c.Other), &elsewhere) })
-	_, _, _ = safely(func() error { return EncodeAny(obj2, &elsewhere) })
-	if !bytes.Equal(out.Bytes(), written) {
-		return failf(sig+"/encode-side", "bytes already written changed when the message was modified afterwards (first difference at byte %d)", firstDiff(out.Bytes(), written))
 	}
 	return nil
 }
